@@ -192,7 +192,8 @@ def run_variant(unit, variant, gen_c, workdir, prelude, solver='kissat', extra_d
     cmd = ['cbmc', b, '--json-ui'] + meta.get('cbmc_flags', []) + variant.get('cbmc_flags', [])
     if meta.get('unwind'):
         cmd += ['--unwind', str(meta['unwind']), '--unwinding-assertions']
-    cmd += ['--object-bits', str(meta.get('object_bits', 12))]
+    if meta.get('object_bits'):
+        cmd += ['--object-bits', str(meta['object_bits'])]
     if solver == 'kissat':
         cmd += ['--external-sat-solver', 'kissat']
     elif solver in ('cvc5', 'z3'):
@@ -202,6 +203,15 @@ def run_variant(unit, variant, gen_c, workdir, prelude, solver='kissat', extra_d
     cmds.append(' '.join(cmd))
     outp = os.path.join(workdir, name + '.json')
     rc, err, secs = sh(cmd, timeout, mem, workdir, stdout_path=outp)
+    if rc not in (0, 10) and not meta.get('object_bits'):
+        try:
+            if 'too many addressed objects' in open(outp).read()[-4000:]:
+                # default pointer encoding (2^8 objects) is much faster; widen only when a body needs it
+                cmd += ['--object-bits', '12']
+                cmds[-1] = ' '.join(cmd)
+                rc, err, secs = sh(cmd, timeout, mem, workdir, stdout_path=outp)
+        except OSError:
+            pass
     if rc not in (0, 10):
         tail = ''
         try:
